@@ -101,6 +101,78 @@ func (s *c09Server) close() {
 	_ = s.udp.Close()
 }
 
+// delayProxy forwards UDP datagrams between clients and target, holding each
+// datagram for d in both directions (a slow direct path).
+type delayProxy struct {
+	conn   *net.UDPConn
+	target *net.UDPAddr
+	d      time.Duration
+	mu     sync.Mutex
+	up     map[string]*net.UDPConn
+	closed atomic.Bool
+}
+
+func newDelayProxy(target *net.UDPAddr, d time.Duration) (*delayProxy, error) {
+	c, err := net.ListenUDP("udp4", &net.UDPAddr{IP: net.IPv4(127, 0, 0, 1)})
+	if err != nil {
+		return nil, err
+	}
+	p := &delayProxy{conn: c, target: target, d: d, up: map[string]*net.UDPConn{}}
+	go func() {
+		buf := make([]byte, 65536)
+		for {
+			n, from, err := c.ReadFromUDP(buf)
+			if err != nil {
+				return
+			}
+			pkt := append([]byte(nil), buf[:n]...)
+			p.mu.Lock()
+			u := p.up[from.String()]
+			if u == nil {
+				u, err = net.DialUDP("udp4", nil, target)
+				if err != nil {
+					p.mu.Unlock()
+					continue
+				}
+				p.up[from.String()] = u
+				go func(u *net.UDPConn, back *net.UDPAddr) {
+					b := make([]byte, 65536)
+					for {
+						m, err := u.Read(b)
+						if err != nil {
+							return
+						}
+						resp := append([]byte(nil), b[:m]...)
+						time.AfterFunc(d, func() {
+							if !p.closed.Load() {
+								_, _ = c.WriteToUDP(resp, back)
+							}
+						})
+					}
+				}(u, from)
+			}
+			p.mu.Unlock()
+			time.AfterFunc(d, func() {
+				if !p.closed.Load() {
+					_, _ = u.Write(pkt)
+				}
+			})
+		}
+	}()
+	return p, nil
+}
+
+func (p *delayProxy) addr() string { return p.conn.LocalAddr().String() }
+func (p *delayProxy) close() {
+	p.closed.Store(true)
+	_ = p.conn.Close()
+	p.mu.Lock()
+	for _, u := range p.up {
+		_ = u.Close()
+	}
+	p.mu.Unlock()
+}
+
 type c09Case struct {
 	ID    string   `json:"id"`
 	Cands []string `json:"candidates"` // with PORT placeholder
@@ -141,6 +213,10 @@ func runC09(e *Env) {
 		add("duplicates+closed-port", hold, jp(addrs[0]), jp(addrs[0]), jp(addrs[len(addrs)-1]), net.JoinHostPort(addrs[0], "9"))
 		// relay-prefixed entries next to direct ones
 		add("turn-prefixed", hold, jp(addrs[0]), "turn:"+jp(addrs[len(addrs)-1]), jp(addrs[1%len(addrs)]))
+		// a slow direct path (1.2 s each way through a delay proxy) next to a fast relay-prefixed candidate
+		if i < e.Pick(2, 8) {
+			add("slow-direct+turn", false, "PROXY", "turn:"+jp("127.0.0.1"))
+		}
 		// unreachable only + one reachable
 		add("unreachable+one", hold, net.JoinHostPort(addrs[0], "9"), "203.0.113.1:9", jp(addrs[r.Intn(len(addrs))]))
 	}
@@ -155,7 +231,16 @@ func runC09(e *Env) {
 		}
 		port := fmt.Sprint(srv.port())
 		var cands []string
+		var proxy *delayProxy
 		for _, x := range c.Cands {
+			if x == "PROXY" {
+				proxy, err = newDelayProxy(&net.UDPAddr{IP: net.IPv4(127, 0, 0, 1), Port: srv.port()}, 1200*time.Millisecond)
+				if err != nil {
+					continue
+				}
+				cands = append(cands, proxy.addr())
+				continue
+			}
 			cands = append(cands, strings.ReplaceAll(x, "PORT", port))
 		}
 		var succeeded atomic.Int64
@@ -180,7 +265,7 @@ func runC09(e *Env) {
 			srv.close()
 			continue
 		}
-		ctx, cancel := context.WithTimeout(context.Background(), 8*time.Second)
+		ctx, cancel := context.WithTimeout(context.Background(), 12*time.Second)
 		conn, err := prober.ProbeAndDial(ctx, cands, quictransport.ClientConfig(), vk.QUICConfig(false, 10*time.Second), nil)
 		close(released)
 		e.R.Eval()
@@ -198,7 +283,11 @@ func runC09(e *Env) {
 			_ = st.Close()
 		}
 		// grace period: losers closed by the dialer become visible at the server
-		time.Sleep(time.Duration(e.Pick(700, 1000)) * time.Millisecond)
+		grace := time.Duration(e.Pick(700, 1000)) * time.Millisecond
+		if proxy != nil {
+			grace = 4500 * time.Millisecond // a slow attempt may finish (and must then be closed) this late
+		}
+		time.Sleep(grace)
 		srv.mu.Lock()
 		open := 0
 		var tokenOn *quic.Conn
@@ -213,6 +302,11 @@ func runC09(e *Env) {
 		total := len(srv.conns)
 		srv.mu.Unlock()
 		hs := int(succeeded.Load())
+		if proxy != nil {
+			proxy.close()
+			e.R.Count("slow_direct_path_cases")
+			e.R.Distinct(fmt.Sprintf("%s/handshakes=%d", c.Class, hs))
+		}
 		if hs >= 2 {
 			multi.Add(1)
 			omu.Lock()
